@@ -6,6 +6,13 @@
         <answer> ::= ok <ty> <bits> | trap | fuel | stuck <why>
     c01 op <binop> <ty> <bits> <bits>        →  <answer>      (one operator on two operands)
     c01 un <neg|not> <ty> <bits>             →  <answer>
+    c01 t5 <hex sexp> <arg>… [| <arg>… ]…    →  outside | <answer> [| <answer>]…
+        the composed model of T5 (`Props/C01Lower`): the program resolved to the lowering model's
+        core language (`C01Resolve.resolve`), lowered by `LowerS.lowerProg`, and the structured MIR
+        of `main` executed by `C01MirRun.runMain` (operators = generated table composition).
+        `outside`: the program is not in the common fragment.  <answer> ::= ok <ty> <bits> | none
+    c01 t5mir <hex sexp>                     →  outside | <fn 0> || <fn 1> || …   (as `c08 mir`)
+        the structured MIR of every function of the resolved program, laid out as a CFG
     c01 dce <cfg>                            →  ok <cfg> | panic | fuel
         the Lean model of `mir/dead_code.rs` (`RotoV.Dce.dce`) on a CFG skeleton:
         <cfg> ::= <block>;<block>;…     <block> ::= <label>:<ins>,<ins>,…
@@ -26,9 +33,13 @@ import Driver.Util
 import RotoV.Model.Spec
 import RotoV.Model.NativeFloat
 import RotoV.Model.Dce
+import RotoV.Model.C01Resolve
+import RotoV.Model.C01MirRun
+import Driver.C08
 
 namespace Driver.C01
-open RotoV RotoV.Spec
+open RotoV hiding Ty BinOp
+open RotoV.Spec
 
 instance : FloatOps := nativeFloatOps
 
@@ -228,9 +239,47 @@ def handleDce (text : String) : String :=
     | .panic => "panic"
     | .fuel => "fuel"
 
+/-! ### `c01 t5`: the composed model (resolve → lowerS → table-based MIR execution) -/
+
+def showTVal : TraceSpec.Val → String
+  | .int v => s!"i32 {ITy.i32.toBits v}"
+  | .bool b => s!"bool {if b then 1 else 0}"
+  | .unit => "unit 0"
+  | _ => "other 0"
+
+def handleT5 (fns : List FnDef) (tuples : List (List String)) : String :=
+  match C01Resolve.resolve fns with
+  | none => "outside"
+  | some fnsT =>
+    match LowerS.lowerProg fnsT with
+    | none => "nolower"
+    | some P =>
+      let answers := tuples.map fun tup =>
+        match tup.mapM parseArg with
+        | none => "bad-arg"
+        | some vs =>
+          match C01Resolve.encArgs vs with
+          | none => "bad-arg"
+          | some vs' =>
+            match C01MirRun.runMain fnsT P FUEL vs' with
+            | some w => "ok " ++ showTVal w
+            | none => "none"
+      " | ".intercalate answers
+
 def handle (args : List String) : String :=
   match args with
   | ["dce", text] => handleDce text
+  | "t5" :: hex :: rest =>
+    match parseProg hex with
+    | none => "bad-program"
+    | some fns => handleT5 fns (splitTuples rest)
+  | ["t5mir", hex] =>
+    match parseProg hex with
+    | none => "bad-program"
+    | some fns =>
+      match C01Resolve.resolve fns with
+      | none => "outside"
+      | some fnsT => " || ".intercalate (fnsT.map Driver.C08.showMir)
   | "run" :: hex :: rest =>
     match parseProg hex with
     | none => "bad-program"
